@@ -6,8 +6,8 @@
 #include "world.h"
 #include "peek.h"
 
-enum { D_NONE = 0, D_UNKNOWN_CA, D_EXPIRED, D_NOT_YET_VALID, D_NAME, D_FORGED_CERT, D_POP_WRONG_SIG, D_POP_OTHER_DATA, D_POP_OMITTED, D_N };
-static const char *D_NAME_S[] = { "none", "unknown_ca", "expired", "not_yet_valid", "name_mismatch", "forged_cert_sig", "pop_wrong_signature", "pop_signature_over_other_data", "pop_message_omitted" };
+enum { D_NONE = 0, D_UNKNOWN_CA, D_EXPIRED, D_NOT_YET_VALID, D_NAME, D_FORGED_CERT, D_POP_WRONG_SIG, D_POP_OTHER_DATA, D_POP_OMITTED, D_FORGED_COPIED_SIG, D_N };
+static const char *D_NAME_S[] = { "none", "unknown_ca", "expired", "not_yet_valid", "name_mismatch", "forged_cert_sig", "pop_wrong_signature", "pop_signature_over_other_data", "pop_message_omitted", "forged_cert_with_copied_root_signature" };
 static const char *CB_S[] = { "none", "strict", "allow_all", "allow_one" };
 
 struct KexChoice { int ver; uint16_t suite; int kind; bool has_sig_pop; };   // has_sig_pop: the server signs something (SKE / CertificateVerify)
@@ -88,7 +88,7 @@ static RunResult c04_exec(const Plan &p) {
         if (vsrv) { pc.client_auth = true; pc.client_identity = K.kind == KK_ECDH_RSA || K.kind == KK_ED25519 ? KK_EC256 : K.kind; pc.cb_s = cb; pc.cb_c = CB_ALLOW_ALL; }
         else { pc.cb_c = cb; pc.cb_allow_alert_c = (int) p.get("cb_alert"); }
         if (defect == D_UNKNOWN_CA && !vsrv) { pc.client_trusts_server = false; }
-        if (defect == D_FORGED_CERT) { if (vsrv) { pc.forge_client_cert = true; } else { pc.forge_server_cert = true; } }
+        if (defect == D_FORGED_CERT || defect == D_FORGED_COPIED_SIG) { if (vsrv) { pc.forge_client_cert = true; } else { pc.forge_server_cert = true; } pc.forge_mode = defect == D_FORGED_COPIED_SIG ? 1 : 0; }
         // every test certificate is issued for DNS:localhost / IP:127.0.0.1; expected names that are NOT that name, from unrelated to near misses
         static const char *WRONG[] = { "wrong-host.example.org", "localhost.attacker.example", "LOCALHOST.corp.example.com", "localhostx", "xlocalhost", "localhos", "local", "a.localhost",
                                        "localhost.localhost", "127.0.0.10", "27.0.0.1", "localhost-1", "l0calhost" };
